@@ -7,8 +7,16 @@ import numpy as np
 
 from common import R
 
-LEAN_MODULES = ["PyomaVerif.Props.C10", "PyomaVerif.Mutants.C10", "PyomaVerif.Props.C09", "PyomaVerif.Props.WiringRun"]
+LEAN_MODULES = ["PyomaVerif.Props.C10", "PyomaVerif.Mutants.C10", "PyomaVerif.Props.C09", "PyomaVerif.Props.WiringRun", "PyomaVerif.Props.C09All"]
 THEOREMS = [
+    # C10 o C09: the labels of every class are SC_apply of the FILTERED tables it returns; stable <=> kept pole whose
+    # first nearest kept pole of the previous order is within the tolerances; removed poles never stable / never reference
+    "PV.C09All.C09_seq_all",
+    "PV.C09All.stable_iff",
+    "PV.C09All.C10_labels_of_kept",
+    "PV.C09All.C10_reference_is_kept",
+    "PV.C09All.ex_labels",
+    "PV.C09All.ex_distinguishes",
     # call-site wiring of the class layer, regenerated from /repo on every run (translate_wiring.py)
     "PV.WiringRun.C10_sc_apply_wiring",
     # C10_from_result_tables: in every run() the three arguments of SC_apply are the very tables stored as
